@@ -600,6 +600,13 @@ class Intrinsics:
             return a.t == b.t
         if isinstance(a, Sym) and isinstance(b, Sym) and a.ty.kind == 'opt' and b.ty.kind == 'opt':
             return a.t == b.t
+        if isinstance(a, Sym) and isinstance(b, Sym) and a.ty.kind in ('pyv', 'str') \
+                and b.ty.kind in ('pyv', 'str'):
+            # object identity of values: not modelled exactly; identical objects are equal values,
+            # nothing else is known (a fresh Boolean bounded by structural equality)
+            ident = fresh('is_same_object', BoolS)
+            st.assume(z3.Implies(ident, self.to_pyv(a) == self.to_pyv(b)))
+            return ident
         raise Unsupported('`is` between %r and %r' % (a, b))
 
     def contains(self, eng, st, cont, x):
